@@ -8,6 +8,8 @@
    `sizes_by_cid` = content addressing (equal CIDs, equal sizes). Traces are chronological. *)
 From V Require Import Base.Common Model.C13_Adder Model.C13_Check Model.C13_Spec Proofs.C13_Theorems Proofs.C13_Monitor.
 From V Require Import Model.C13_Importer Model.C13_ImporterSpec Model.C13_ShapeCheck Proofs.C13_Importer Proofs.C13_Trickle Proofs.C13_ShapeMonitor Proofs.C13_ImporterLink Proofs.C13_ImporterThm.
+From V Require Import Model.C13_Tree Model.C13_TreeSpec Model.C13_TreeCheck Proofs.C13_Tree.
+From Coq Require Import Sorting.Permutation.
 Open Scope N_scope.
 
 (* BlockAdder.Add fails exactly when every destination errored; otherwise the destinations that did not
@@ -440,3 +442,95 @@ Example single_file_example :
   layout_tree (importer true 2 2 bs) <> layout_tree r.
 Proof. cbv zeta. split; [reflexivity|]. split; [reflexivity|]. split; [apply nodup_injective_on; vm_compute; reflexivity|].
   split; [vm_compute; reflexivity|]. split; [vm_compute; reflexivity|]. split; [vm_compute; reflexivity|]. vm_compute. discriminate. Qed.
+
+
+(* ======================================================================================================================
+   FILE TREES (Model/C13_Tree.v: ipfsadd AddAllAndPin / addDir / addFile / addNode / outputDirs / PinRoot, go-mfs Mkdir /
+   PutNode / GetNode / Flush / Close, go-unixfs BasicDirectory, sorted dag-pb links, the hidden filter of go-ipfs-files, wrap).
+   Quantification: every tree (File bytes | Dir of named entries, names unique per directory: names_unique), hidden on/off,
+   wrap on/off, every chunk size k > 0, layout, links-per-block >= min_links (params_ok). No HAMT: the code never shards a
+   directory while uio.HAMTShardingSize = 0 (hamt_off; nothing in ipfs-cluster sets it, and go-mfs builds plain BasicDirectories),
+   so there is NO bound on the directory width. go-mfs emits the directory nodes in Go map order and several times: the
+   theorems are stated for EVERY emission em' that has the same blocks as the model's (same_blocks), any order, any multiplicity.
+   ====================================================================================================================== *)
+
+(* the guard, shipped value *)
+Example hamt_off_shipped : hamt_off 0 = true /\ hamt_off 262144 = false.
+Proof. split; reflexivity. Qed.
+
+(* the blocks handed to DAGService.Add for a tree are closed under links and contain the returned root *)
+Theorem tree_emission_closed p wrap top mfs t : params_ok p ->
+  let x := import_tree p wrap top mfs t in dclosed (import_emission x) /\ In (import_root x) (import_emission x).
+Proof. exact (fun Hp : params_ok p => import_closed p Hp wrap top mfs t). Qed.
+Print Assumptions tree_emission_closed.
+
+(* ... so every emission with these blocks meets the importer contract the adder theorems assume *)
+Theorem tree_stream_contract cid_of enc_size em root : dclosed em -> In root em ->
+  let stream := tstream_of cid_of enc_size em in
+  strict stream /\ link_closed stream /\ In (cid_of root) (cids_of stream) /\ (dinjective_on em cid_of -> sizes_by_cid stream).
+Proof. exact (tstream_contract cid_of enc_size em root). Qed.
+Print Assumptions tree_stream_contract.
+
+(* a directory node links exactly the names of its entries, each once, sorted by name (Go string order), each to the final node of
+   that entry: insertion order does not matter *)
+Theorem dir_links_named p es :
+  exists ls, dag_of p (Dir es) = DDir ls /\ Permutation (map fst ls) (map fst es) /\ sorted_names (map fst ls) /\
+    forall n d, In (n, d) ls <-> exists c, In (n, c) es /\ d = dag_of p c.
+Proof. exact (dir_links_named_l p es). Qed.
+Print Assumptions dir_links_named.
+
+(* reading back: from any store that holds a link-closed set of blocks containing the final node of a tree, every file of the tree
+   is found by its path and reads back byte for byte *)
+Theorem tree_read_back cid_of st em p : dclosed em -> (forall n, In n em -> st (cid_of n) = Some (tcontent_of cid_of n)) ->
+  params_ok p -> forall t, In (dag_of p t) em -> names_unique t = true ->
+  forall path bs, In (path, bs) (files_of t) -> read_file st (S (file_height p bs)) (cid_of (dag_of p t)) path = Some bs.
+Proof. exact (fun Hc Hst => tree_read_back_gen cid_of st em Hc Hst p). Qed.
+Print Assumptions tree_read_back.
+
+(* A TREE, END TO END (unsharded): every tree, hidden / wrap option, import parameters, every emission with the model's blocks,
+   every hash without collision on them, every allocation / put-outcome / pin-outcome script: if the add succeeds then it returns
+   the importer's root, exactly that root is pinned, every block reachable from it was put, and a reader that only has the blocks
+   that were put finds every (visible) file by its path from the root and gets back exactly its bytes *)
+Theorem tree_delivered_closed_and_readable cid_of enc_size e p (wrap hid : bool) (top mfs : name) t em' c tr : params_ok p ->
+  let vis := visible hid t in
+  let seen := if wrap then Dir [(top, vis)] else vis in
+  let x := import_tree p wrap top mfs vis in
+  let root := cid_of (import_root x) in
+  let stream := tstream_of cid_of enc_size em' in
+  same_blocks (import_emission x) em' -> dinjective_on em' cid_of -> names_unique seen = true ->
+  single_run e stream root = (ROk c, tr) ->
+  c = CData root /\ (exists al, ok_pins tr = [single_pin e root al]) /\
+  (forall y, reach stream root y -> In y (data_puts tr)) /\
+  forall path bs, In (path, bs) (files_of seen) ->
+    read_file (tstore_of cid_of em' (data_puts tr)) (S (file_height p bs)) root path = Some bs.
+Proof. exact (fun (Hp : params_ok p) Hs Hi Hu => tree_unsharded_l cid_of enc_size e p wrap hid top mfs t Hp em' Hs Hi Hu c tr). Qed.
+Print Assumptions tree_delivered_closed_and_readable.
+
+(* the same through the sharding DAG service *)
+Theorem tree_delivered_closed_and_readable_sharded cid_of enc_size e p (wrap hid : bool) (top mfs : name) t em' c tr : params_ok p ->
+  let vis := visible hid t in
+  let seen := if wrap then Dir [(top, vis)] else vis in
+  let x := import_tree p wrap top mfs vis in
+  let root := cid_of (import_root x) in
+  let stream := tstream_of cid_of enc_size em' in
+  same_blocks (import_emission x) em' -> dinjective_on em' cid_of -> names_unique seen = true ->
+  0 < e_maxlinks e -> shard_run e stream root = (ROk c, tr) ->
+  c = CData root /\ (exists q, In q (ok_pins tr) /\ pcid q = CData root /\ pty q = TMeta) /\
+  (forall y, reach stream root y -> In y (data_puts tr)) /\
+  forall path bs, In (path, bs) (files_of seen) ->
+    read_file (tstore_of cid_of em' (data_puts tr)) (S (file_height p bs)) root path = Some bs.
+Proof. exact (fun (Hp : params_ok p) Hs Hi Hu => tree_sharded_l cid_of enc_size e p wrap hid top mfs t Hp em' Hs Hi Hu c tr). Qed.
+Print Assumptions tree_delivered_closed_and_readable_sharded.
+
+(* non-vacuity: the tree {".h": 2 bytes, "b": 5 bytes, "a": {"x": 3 bytes, "sub": {"y": 1 byte}}, "e": {}} without hidden files, chunks of 2,
+   2 links per block: 34 emissions, the root links a, b, e in that order whatever the entry order, .h is not in the DAG *)
+Example tree_example :
+  let t := Dir [([98], File [1; 2; 3; 4; 5]); ([46; 104], File [9; 9]); ([101], Dir []);
+                ([97], Dir [([120], File [6; 7; 8]); ([115; 117; 98], Dir [([121], File [10])])])] in
+  let p := mk_ip false 2 2 in
+  let x := import_tree p false [116] [] (visible false t) in
+  params_ok p /\ names_unique (visible false t) = true /\ length (import_emission x) = 34%nat /\
+  (exists a b e, import_root x = DDir [([97], a); ([98], b); ([101], e)] /\ e = DDir []) /\
+  map fst (files_of (visible false t)) = [[[98]]; [[97]; [120]]; [[97]; [115; 117; 98]; [121]]].
+Proof. cbv zeta. split; [split; reflexivity|]. split; [reflexivity|]. split; [reflexivity|]. split; [|reflexivity].
+  eexists _, _, _. split; vm_compute; reflexivity. Qed.
